@@ -57,6 +57,7 @@ func VerifC11_LimitedRead() {
 
 type verifTransport struct {
 	sawURLHost, sawHost, sawMethod string
+	sawPath                        string
 	calls                          int
 	failed                         bool
 	status                         int
@@ -66,6 +67,7 @@ type verifTransport struct {
 func (t *verifTransport) RoundTrip(req *http.Request) (*http.Response, error) {
 	t.calls++
 	t.sawURLHost, t.sawHost, t.sawMethod = req.URL.Host, req.Host, req.Method
+	t.sawPath = req.URL.Path
 	if verifapi.Bool("transport.fails") {
 		t.failed = true
 		return nil, errors.New("transport failure (stub)")
@@ -75,8 +77,21 @@ func (t *verifTransport) RoundTrip(req *http.Request) (*http.Response, error) {
 
 var verifLastURL *url.URL
 
+// RFC 3986 §5.2 as far as the callers need it: a reference that is an absolute path replaces
+// the base's path, a relative one replaces what follows the base path's last slash
 func verifResolveReference(u *url.URL, ref *url.URL) *url.URL {
-	verifLastURL = &url.URL{Scheme: u.Scheme, Host: u.Host, Path: "/" + ref.Path}
+	p := ref.Path
+	if len(p) == 0 || p[0] != '/' {
+		dir := u.Path
+		for len(dir) > 0 && dir[len(dir)-1] != '/' {
+			dir = dir[:len(dir)-1]
+		}
+		if dir == "" {
+			dir = "/"
+		}
+		p = dir + p
+	}
+	verifLastURL = &url.URL{Scheme: u.Scheme, Host: u.Host, Path: p}
 	return verifLastURL
 }
 func verifURLString11(u *url.URL) string { verifLastURL = u; return "url-string" }
@@ -194,16 +209,23 @@ func VerifC11_AMPExchange() {
 		t.status = verifapi.Int("status")
 		verifapi.Assume(t.status != 200)
 	}
-	r := &ampCacheRendezvous{brokerURL: &url.URL{Scheme: "https", Host: "broker.example", Path: "/"}, front: front, transport: t}
+	brokerPath := "/"
+	if verifapi.Bool("broker URL with a path") {
+		brokerPath = "/snowflake/"
+	}
+	r := &ampCacheRendezvous{brokerURL: &url.URL{Scheme: "https", Host: "broker.example", Path: brokerPath}, front: front, transport: t}
 	orig := "broker.example"
+	wantPath := brokerPath + "amp/client/0pad/data"
 	if verifapi.Bool("cache") {
 		r.cacheURL = &url.URL{Scheme: "https", Host: "cache.example"}
 		orig = "prefix.cache.example"
+		wantPath = "/c/s/broker.example" + wantPath
 	}
 	data, err := r.Exchange([]byte("poll"))
 	verifFrontingOracle(t, front, orig)
 	if t.calls == 1 {
 		verifapi.Assert(t.sawMethod == "GET", "the AMP poll is a GET")
+		verifapi.Assert(t.sawPath == wantPath, "the AMP poll goes to amp/client/<encoded poll> under the broker URL's own path (under the cache's prefix when a cache is used)")
 	}
 	if t.calls == 1 && !t.failed && t.status == 200 && !verifHasLocation && !verifBadVersion && !verifDecFailed && size <= 100000 {
 		verifapi.Cover("well-formed response within the limit")
